@@ -17,5 +17,7 @@ Verdict ==
       bad == Bad(d)
   IN PrintT(ToJson([n |-> n, id |-> d.prog.id, cases |-> Len(d.cases),
                     bad |-> {[c |-> c, at |-> FirstBad(d.prog, d.cases[c].h, d.cases[c].o),
-                              exp |-> Expected(d.prog, d.cases[c].h)] : c \in bad}]))
+                              exp |-> Expected(d.prog, d.cases[c].h),
+                              depth |-> SubflowDepth(d.prog, SubSeq(d.cases[c].h, 1, FirstBad(d.prog, d.cases[c].h, d.cases[c].o)))]
+                             : c \in bad}]))
 =============================================================================
